@@ -24,6 +24,8 @@ ASSUMPTIONS = ['R11: only U+0020 is stripped by the oracle; submissions whose en
 PIECES = ['a', 'B', 'b', 'A', 'é', 'É', 'İ', '1', '-', '.', ' ', ' ', '  ',
           '\t', '\r', '\n', '\r\n', '\n\r', 'x', 'Y']
 WS = [' ', '  ', '\t', '\r', '\n', '\r\n', '\n\r', ' \t ']
+# whitespace other than space / tab / line breaks: removed at the ends by strip, an ordinary character anywhere else
+END_WS = [u'\xa0', u'\x0c', u'\x0b', u'\u3000', u' \xa0', u'\u2003 ']
 
 
 def gates(tier):
@@ -50,7 +52,7 @@ def ref_clean(s, case_sensitive, strip, strip_all, clean_spaces):
     if not case_sensitive:
         t = t.lower()
     if strip:
-        t = t.strip(' ')
+        t = t.strip()        # "leading and trailing whitespace": every character Python calls whitespace (R11, revised)
     if clean_spaces:
         t = re.sub(' {2,}', ' ', t)
     if strip_all:
@@ -60,10 +62,6 @@ def ref_clean(s, case_sensitive, strip, strip_all, clean_spaces):
 
 def ambiguous(s, flags):
     """Cases the statement leaves open (R11)."""
-    t = s.replace('\t', ' ').replace('\r', ' ').replace('\n', ' ')
-    inner = t.strip(' ')
-    if inner and (inner[0].isspace() or inner[-1].isspace()):
-        return True   # other Unicode whitespace at an end: unspecified
     if not flags['clean_spaces'] and not flags['strip_all'] and re.search(r'[\r\n]{3,}', s):
         return True   # CRLF/LFCR tokenisation ambiguous
     return False
@@ -80,9 +78,9 @@ def edit(rng, s):
     if kind == 'same':
         return kind, s
     if kind == 'ws_front':
-        return kind, rng.choice(WS) + s
+        return kind, rng.choice(WS + END_WS) + s
     if kind == 'ws_back':
-        return kind, s + rng.choice(WS)
+        return kind, s + rng.choice(WS + END_WS)
     if kind == 'ws_inside':
         if len(s) < 2:
             return 'same', s
